@@ -115,7 +115,7 @@ def _norm_val(v):
 def norm_real(res, gen):
     out = res["outcome"]
     if out[0] == "exc":
-        o = ["exc", out[1], out[2] if out[1] in ("NameError", "Boom") else ""]
+        o = ["exc", out[1], out[2] if out[1] in ("NameError", "Boom", "Quit") else ""]
     else:
         o = ["ret", out[1]]
     ys = [y[1] for y in res["yields"] if y[0] == "y"]
@@ -144,7 +144,7 @@ def norm_model(ans, gen, real_open):
             arg = e["args"][0] if e["args"] else ""
             if cls == "PteraNameError":
                 cls = "NameError"
-            o = ["exc", cls, str(arg) if cls in ("NameError", "Boom") else ""]
+            o = ["exc", cls, str(arg) if cls in ("NameError", "Boom", "Quit") else ""]
         else:
             o = ["exc", "?", json.dumps(e)]
     else:
